@@ -35,7 +35,7 @@ def gen_db(rng):
         if rng.random() < 0.5:
             attrs.append(["Name", [rng.choice(["b", "a", "é", "B"])]])
         f = imp.mkfeat(seqid=rng.choice(SEQIDS), source=rng.choice(["src", "Src", "a", "10", "9"]), type_=rng.choice(TYPES),
-                       s=s, e=e, score=rng.choice([".", "10", "9", "1e3", "0.5"]), strand=rng.choice(["+", "-", "."]),
+                       s=s, e=e, score=rng.choice([".", "10", "9", "1e3", "0.5"]), strand=rng.choice(["+", "-", ".", "+", "-", "?", "1"]),
                        frame=rng.choice([".", "0", "1", "2"]), attrs=attrs,
                        extra=[rng.choice(["x", "y", "10"])] if rng.random() < 0.3 else [])
         if rng.random() < 0.08:
@@ -58,14 +58,14 @@ def gen_queries(rng, feats):
     for k in KEYS:
         for form in ("str", "tuple"):
             for rev in (False, True):
-                qs.append({"q": "ord", "api": rng.choice(["all", "fot"]), "ft": ft(), "strand": rng.choice([None, None, "+", "-"]),
+                qs.append({"q": "ord", "api": rng.choice(["all", "fot"]), "ft": ft(), "strand": rng.choice([None, None, "+", "-", ".", "?", "1", "x"]),
                            "keys": [k], "form": form, "reverse": rev})
     for _ in range(10):
         ks = [rng.choice(KEYS) for _ in range(rng.choice([2, 2, 3]))]
         qs.append({"q": "ord", "api": rng.choice(["all", "fot"]), "ft": ft(), "strand": rng.choice([None, "+"]),
                    "keys": ks, "form": rng.choice(["tuple", "list"]), "reverse": rng.random() < 0.5})
     for _ in range(4):
-        qs.append({"q": "ord", "api": "all", "ft": ft(), "strand": rng.choice([None, None, "-"]), "keys": [], "form": "none",
+        qs.append({"q": "ord", "api": "all", "ft": ft(), "strand": rng.choice([None, None, "-", "?", "."]), "keys": [], "form": "none",
                    "reverse": rng.random() < 0.3})
     qs.append({"q": "ord", "api": "all", "ft": None, "strand": None, "keys": [], "form": "none", "reverse": False})
     for q in qs:
@@ -83,7 +83,22 @@ def gen_cases(rng, tier):
     cases = []
     for _ in range(n):
         feats = gen_db(rng)
-        cases.append({"feats": feats, "qs": gen_queries(rng, feats)})
+        ids = [f["attrs"][0][1][0] for f in feats]
+        r = rng.random()
+        if r < 0.3:
+            dele = []
+        elif r < 0.6:
+            t = rng.choice(feats)["type"]                      # every feature of one type
+            dele = [i for i, f in zip(ids, feats) if f["type"] == t]
+        elif r < 0.8:
+            sq = rng.choice(feats)["seqid"]                    # everything on one seqid
+            dele = [i for i, f in zip(ids, feats) if f["seqid"] == sq]
+        else:
+            dele = [i for i in ids if rng.random() < 0.4]
+        qs2 = [{"q": "types"}, {"q": "seqids"}, {"q": "count", "ft": None}, {"q": "count", "ft": rng.choice(feats)["type"]},
+               {"q": "ord", "api": "all", "ft": None, "strand": None, "keys": [], "form": "none", "reverse": False},
+               {"q": "ord", "api": "all", "ft": None, "strand": rng.choice(["+", "-", "?"]), "keys": ["start"], "form": "str", "reverse": False}]
+        cases.append({"feats": feats, "qs": gen_queries(rng, feats), "delete": dele, "qs2": qs2 if dele else []})
     return cases
 
 
@@ -99,7 +114,9 @@ def valid_case(c):
                 return False
             if any(not v for _, vs in f["attrs"] for v in vs) or any(not vs for _, vs in f["attrs"]) or any(not x for x in f["extra"]):
                 return False
-        for q in c["qs"]:
+        if any(i not in ids for i in c.get("delete", [])):
+            return False
+        for q in c["qs"] + c.get("qs2", []):
             if q["q"] == "ord":
                 if any(k not in KEYS for k in q["keys"]) or q["form"] not in ("str", "tuple", "list", "none"):
                     return False
@@ -120,11 +137,18 @@ def valid_case(c):
 
 def shrinks(c):
     qs, feats = c["qs"], c["feats"]
-    if len(qs) > 1:
+    if c.get("delete"):
+        yield dict(c, delete=[], qs2=[])
+        for q in c["qs2"]:
+            yield dict(c, qs2=[q])
         for q in qs:
             yield dict(c, qs=[q])
+    if len(qs) > 1:
+        for q in qs:
+            yield dict(c, qs=[q], delete=[], qs2=[])
     for i in range(len(feats)):
-        yield dict(c, feats=feats[:i] + feats[i + 1:])
+        fid = feats[i]["attrs"][0][1][0]
+        yield dict(c, feats=feats[:i] + feats[i + 1:], delete=[x for x in c.get("delete", []) if x != fid])
     for i, q in enumerate(qs):
         if q["q"] == "ord":
             if q["ft"] is not None and q["api"] != "fot":
@@ -142,8 +166,9 @@ def run_impl(c):
         return {"db": ["err", db]}
     raw = [tuple(r) for r in db.conn.execute("SELECT id, attributes, extra, rowid FROM features ORDER BY rowid")]
     t = imp.dump_tables(db.conn)
-    out = []
-    for q in c["qs"]:
+    def answer(qlist):
+      out = []
+      for q in qlist:
         try:
             if q["q"] == "ord":
                 ob = None
@@ -169,7 +194,16 @@ def run_impl(c):
                 out.append(["ok", list(db.seqids())])
         except Exception as ex:
             out.append(["err", L.err_class(ex)])
-    return {"db": ["ok", {"rows": t["rows"], "raw": [[r[0], r[1], r[2], r[3]] for r in raw]}], "qs": out}
+      return out
+    out = answer(c["qs"])
+    out2 = []
+    if c.get("delete"):
+        try:
+            db.delete(list(c["delete"]), make_backup=False)
+            out2 = answer(c["qs2"])
+        except Exception as ex:
+            out2 = [["err", L.err_class(ex)] for _ in c["qs2"]]
+    return {"db": ["ok", {"rows": t["rows"], "raw": [[r[0], r[1], r[2], r[3]] for r in raw]}], "qs": out, "qs2": out2}
 
 
 def coq_ft(ft):
@@ -182,27 +216,31 @@ def coq_ft(ft):
 
 def coq_case(c, o):
     if o["db"][0] != "ok":
-        return "Case [] []"
+        return "Case [] [] [] []"
     d = o["db"][1]
     raw = {r[0]: r for r in d["raw"]}
     rows = ["(OR %s %s %s %s)" % (imp.coq_row(r, r["id"], r["bin"]), L.s(raw[r["id"]][1] or ""), L.s(raw[r["id"]][2] or ""),
                                   L.z(raw[r["id"]][3])) for r in d["rows"]]
-    qs = []
-    for q, r in zip(c["qs"], o["qs"]):
-        if q["q"] == "ord":
-            qs.append("(QOrd %s %s %s %s %s)" % (coq_ft(q["ft"]), L.opt(q["strand"], L.s, "str"),
-                                                 L.lst([OKEY[k] for k in q["keys"]], "okey"), L.b(q["reverse"]), L.res(r, L.ss)))
-        elif q["q"] == "count":
-            qs.append("(QCount %s %s)" % (L.opt(q["ft"], L.s, "str"), L.res(r, L.z)))
-        elif q["q"] == "types":
-            qs.append("(QTypes %s)" % L.res(r, L.ss))
-        else:
-            qs.append("(QSeqids %s)" % L.res(r, L.ss))
-    return "Case %s %s" % (L.lst(rows, "orow"), L.lst(qs, "query"))
+    def coq_qs(qlist, rlist):
+        qs = []
+        for q, r in zip(qlist, rlist):
+            if q["q"] == "ord":
+                qs.append("(QOrd %s %s %s %s %s)" % (coq_ft(q["ft"]), L.opt(q["strand"], L.s, "str"),
+                                                     L.lst([OKEY[k] for k in q["keys"]], "okey"), L.b(q["reverse"]), L.res(r, L.ss)))
+            elif q["q"] == "count":
+                qs.append("(QCount %s %s)" % (L.opt(q["ft"], L.s, "str"), L.res(r, L.z)))
+            elif q["q"] == "types":
+                qs.append("(QTypes %s)" % L.res(r, L.ss))
+            else:
+                qs.append("(QSeqids %s)" % L.res(r, L.ss))
+        return L.lst(qs, "query")
+    return "Case %s %s %s %s" % (L.lst(rows, "orow"), coq_qs(c["qs"], o["qs"]), L.ss(c.get("delete", [])),
+                                 coq_qs(c.get("qs2", []), o.get("qs2", [])))
 
 
 def labels(c, o):
     yield "n=%d" % len(c["feats"])
+    yield "deleted-after-first-queries=%d" % min(len(c.get("delete", [])), 5)
     for q, r in zip(c["qs"], o.get("qs", [])):
         if q["q"] == "ord":
             yield "ord/%s/keys=%d/%s%s" % (q["form"], len(q["keys"]), "desc" if q["reverse"] else "asc",
